@@ -70,12 +70,55 @@ def _const_attr_access(node):
     return node
 
 
-def _plain_stmt(mod):
+def _literal_dicts(node):
+    """{name: Dict node} for the locals that are bound once, to a dict display / dict(k=v) with constant keys, and
+    never changed afterwards (no item store, no mutating call, not handed to anything but `**`)."""
+    pm = A.parent_map(node)
+    occ = {}
+    for x in A.walk_body(node):
+        if isinstance(x, ast.Name):
+            occ.setdefault(x.id, []).append(x)
+    out = {}
+    for name, xs in occ.items():
+        inits, ok = [], True
+        for x in xs:
+            p_ = pm.get(x)
+            if isinstance(p_, ast.Assign) and len(p_.targets) == 1 and p_.targets[0] is x:
+                inits.append(p_.value)
+            elif isinstance(x.ctx, ast.Store):
+                ok = False
+            elif isinstance(p_, ast.Subscript) and p_.value is x and isinstance(p_.ctx, (ast.Store, ast.Del)):
+                ok = False
+            elif isinstance(p_, ast.Attribute) and p_.value is x and p_.attr in _MUTATORS:
+                ok = False
+        if not ok or len(inits) != 1:
+            continue
+        v = inits[0]
+        if isinstance(v, ast.Call) and isinstance(v.func, ast.Name) and v.func.id == "dict" and not v.args and v.keywords and all(k.arg for k in v.keywords):
+            v = ast.Dict(keys=[ast.Constant(k.arg) for k in v.keywords], values=[k.value for k in v.keywords])
+        if isinstance(v, ast.Dict) and v.keys and all(k is not None and A.const_str(k) is not None for k in v.keys):
+            out[name] = v
+    return out
+
+
+def _plain_stmt(mod, tables):
     def one(st):
+        for p_ in PM._lower_stmt(st, pour_only=True):
+            if p_ is not st:
+                PM._rewrite_blocks(p_, one)
+                return one(p_)
         if isinstance(st, ast.For) and not st.orelse:
             it = st.iter
             if isinstance(it, ast.Name) and it.id in mod.assigns:
                 it = mod.assigns[it.id]
+            # a local table: `for k, v in overrides.items()` / `for k in overrides`
+            tbl, view_ = it, "keys"
+            if isinstance(it, ast.Call) and isinstance(it.func, ast.Attribute) and it.func.attr in ("items", "keys", "values") and not it.args and not it.keywords:
+                tbl, view_ = it.func.value, it.func.attr
+            if isinstance(tbl, ast.Name) and tbl.id in tables:
+                d = tables[tbl.id]
+                rows_ = {"items": [ast.Tuple(elts=[k, v], ctx=ast.Load()) for k, v in zip(d.keys, d.values)], "keys": list(d.keys), "values": list(d.values)}[view_]
+                it = ast.Tuple(elts=rows_, ctx=ast.Load())
             names = [st.target.id] if isinstance(st.target, ast.Name) else \
                 ([x.id for x in st.target.elts] if isinstance(st.target, (ast.Tuple, ast.List)) and all(isinstance(x, ast.Name) for x in st.target.elts) else None)
             jumps = any(isinstance(x, (ast.Break, ast.Continue)) for b in st.body for x in A.walk_local(b))
@@ -102,6 +145,17 @@ def _plain_stmt(mod):
                             out += one(ast.fix_missing_locations(nb))
                     return out
         if isinstance(st, (ast.Expr, ast.Assign, ast.AnnAssign, ast.AugAssign, ast.Return)):
+            # f(a, **common) with `common` a literal table: the keywords written out
+            for c in [x for x in A.walk_local(st) if isinstance(x, ast.Call)]:
+                kws = []
+                for k in c.keywords:
+                    if k.arg is None and isinstance(k.value, ast.Name) and k.value.id in tables:
+                        d = tables[k.value.id]
+                        if all(A.const_str(kk).isidentifier() for kk in d.keys):
+                            kws += [ast.keyword(arg=A.const_str(kk), value=vv) for kk, vv in zip(d.keys, d.values)]
+                            continue
+                    kws.append(k)
+                c.keywords = kws
             return [_const_attr_access(st)]
         if isinstance(st, (ast.If, ast.While)):
             st.test = _const_attr_access(st.test)
@@ -215,7 +269,7 @@ def _plain(ck, fi):
     if key not in memo:
         node = copy.deepcopy(fi.node)
         try:
-            PM._rewrite_blocks(node, _plain_stmt(fi.module))
+            PM._rewrite_blocks(node, _plain_stmt(fi.module, _literal_dicts(node)))
             node = _scalarise(node)
             node = _index_loops(node)
             changed = ast.dump(node) != ast.dump(fi.node)
@@ -229,6 +283,40 @@ def _FA(ck, qual_or_fi):
     """The per-function bundle of the function in its plain spelling (see above)."""
     fi = ck.fn(qual_or_fi) if isinstance(qual_or_fi, str) else qual_or_fi
     return FA(ck, _plain(ck, fi))
+
+
+def _field_from_ctor_chain(ck, cls, init, field, bound, depth=4):
+    """The string constant a constructor chain leaves in `self.<field>`: the field is assigned from a constructor
+    parameter somewhere up the chain, and every `super().__init__(...)` on the way hands a constant (or its own
+    parameter, itself bound to a constant) down.  `bound`: parameter -> constant for `init`.  None when unknown."""
+    if depth <= 0 or init is None:
+        return None
+    for st_ in A.all_stmts(init.node):
+        if isinstance(st_, ast.Assign) and any(A.dotted(t_) == field for t_ in st_.targets):
+            v = st_.value
+            if isinstance(v, ast.Name) and v.id in bound:
+                return bound[v.id]
+            return _str_const(ck, init.module, cls, v)
+    sup = [c for c in A.body_calls(init.node) if A.call_attr(c) == "__init__" and isinstance(A.call_recv(c), ast.Call) and A.call_attr(A.call_recv(c)) == "super"]
+    owner = init.cls
+    if len(sup) != 1 or owner is None:
+        return None
+    mro = ck.repo.mro(owner)
+    binit = next((c.methods["__init__"] for c in mro[1:] if "__init__" in c.methods), None)
+    if binit is None:
+        return None
+    nb = {}
+    for i, p_ in enumerate([x for x in binit.params if x != "self"]):
+        a_ = A.arg_or_kw(sup[0], i, p_)
+        if a_ is None:
+            continue
+        if isinstance(a_, ast.Name) and a_.id in bound:
+            nb[p_] = bound[a_.id]
+        else:
+            c_ = _str_const(ck, init.module, cls, a_)
+            if c_ is not None:
+                nb[p_] = c_
+    return _field_from_ctor_chain(ck, cls, binit, field, nb, depth - 1)
 
 
 def _str_const(ck, mod, cls, e, depth=3):
@@ -950,6 +1038,11 @@ def _precedence(ck, R2, q):
     n = 0
     for p in fa.fi.params:
         if p in ("self", "config"):
+            continue
+        used = any(isinstance(x, ast.Name) and x.id == p and isinstance(x.ctx, ast.Load) for x in ast.walk(fa.node))
+        if not used:
+            ck.ob(R2, fa.key(None, "argument-applied:" + p), False,
+                  "the explicit argument %s is accepted and never used: whatever the caller passes, the configured (or default) value stays" % p, fa.where())
             continue
         slots = {}
         for s in fa.stmts(ast.Assign):
@@ -2153,7 +2246,17 @@ def check(ck):
             first = [p for p in binit.params if p != "self"][0] if binit is not None and len(binit.params) > 1 else "storage_type"
             a0 = A.arg_or_kw(sup[0], 0, first)
             sname = _str_const(ck, mod, cls, a0) if a0 is not None else None
-        tvals = {_str_const(ck, mod, cls, e.value) for e in entries if e.key == "type"}
+        def type_value(e):
+            v = _str_const(ck, mod, cls, e)
+            f = A.dotted(e) if isinstance(e, ast.Attribute) else None
+            if v is None and f and f.startswith("self.") and f.count(".") == 1 and init is not None:
+                # `self.storage_type`: the field a base constructor keeps its type-name parameter in
+                again = [s2 for m_ in cls.methods.values() if m_.name != "__init__" for s2 in A.all_stmts(m_.node) if isinstance(s2, (ast.Assign, ast.AugAssign))
+                         and any(A.dotted(t_) == f for t_ in (s2.targets if isinstance(s2, ast.Assign) else [s2.target]))]
+                if not again:
+                    return _field_from_ctor_chain(ck, cls, init, f, {})
+            return v
+        tvals = {type_value(e.value) for e in entries if e.key == "type"}
         tname = next(iter(tvals)) if len(tvals) == 1 else None
         # the dump describes the backend AS IT IS: when it starts from the configuration the backend
         # was given (self.config), every option a constructor argument can override has to be
